@@ -25,7 +25,8 @@ class C13(Prop):
                 "NV.C13.ccByte_ok", "NV.C13.copyChars_append", "NV.C13.getUserCommand_ok",
                 "NV.C13.framing_never_crashes", "NV.C13.fRun_never_crashes", "NV.C13.telnet_lines_delivered",
                 "NV.C13.telnet_schedule_independent", "NV.C13.telnet_read_exact", "NV.C13.extract_exact",
-                "NV.C13.lines_eq_cmdsOf", "NV.C13.ascii_lines_delivered", "NV.C13.ascii_read_exact"]
+                "NV.C13.lines_eq_cmdsOf", "NV.C13.ascii_lines_delivered", "NV.C13.ascii_read_exact",
+                "NV.C13.copyCharsO_ok", "NV.C13.asciiLoop_exact", "NV.C13.getUserData_ok"]
     witness_theorems = ["NV.C13.sb_terminator_overflows_exact_array", "NV.C13.ayt_returns_to_data",
                         "NV.C13.full_sb_payload_is_not_text", "NV.C13.ascii_spec_example",
                         "NV.C13.burst_check", "NV.C13.telnet_lines_delivered_Full_false"]
@@ -229,9 +230,10 @@ class C13(Prop):
             a = c
         return [p for p in parts if p]
 
-    def mk_case(self, cid, port, chunks, rng=None, inter="end", origin="generated", single_at=None, console=False):
-        """inter: 'end' (finish at the end), 'each' (drain after each chunk), 'rand' (random extract/drain/nothing)"""
-        lines = ["port " + port]
+    def mk_case(self, cid, port, chunks, rng=None, inter="end", origin="generated", single_at=None, console=False, cbs=()):
+        """inter: 'end' (finish at the end), 'each' (drain after each chunk), 'rand' (random extract/drain/nothing)
+        cbs: (ordinal, 'err'|'dest') outcomes of the callbacks into the user object"""
+        lines = ["cb %d %s" % (k, w) for k, w in cbs] + ["port " + port]
         for i, c in enumerate(chunks):
             if single_at is not None and i == single_at:
                 lines.append("iflag single")
@@ -269,6 +271,20 @@ class C13(Prop):
         add("ayt-then-negotiation", "telnet", [bytes([IAC, AYT, IAC, WILL, TT]) + b"ab" + crlf])
         add("two-byte-commands", "telnet", [bytes([IAC, BRK]) + b"a" + bytes([IAC, IP]) + b"b" + bytes([IAC, AO]) + b"c" + bytes([IAC, AYT]) + b"d" + crlf])
         add("sb-full-quoted-iac-then-se", "telnet", [bytes([IAC, SB]) + b"A" * 100 + bytes([IAC, IAC, SE]) + b"secret" + bytes([IAC, SE]) + crlf])
+        # callbacks that fail: what is committed before the callback runs
+        tt = bytes([IAC, SB, TT, 0]) + b"xterm" + bytes([IAC, SE])
+        naws = bytes([IAC, SB, NAWS, 0, 80, 0, 24, IAC, SE])
+        add("cb-ascii-err-first-of-two", "ascii", [b"one\ntwo\nthr", b"ee\nfour\n"], cbs=[(0, "err")])
+        add("cb-ascii-err-each", "ascii", [b"a\nb\nc\nd\n", b"e\n", b"f\ng"], cbs=[(0, "err"), (1, "err"), (2, "err"), (4, "err")])
+        add("cb-ascii-err-last-line", "ascii", [b"one\ntwo\n", b"three\n"], cbs=[(1, "err")])
+        add("cb-ascii-err-full-buffer", "ascii", [b"a\n" + b"b\n" * 1022 + b"c", b"d\nlast\n"], cbs=[(0, "err")])
+        add("cb-ascii-err-then-long", "ascii", [b"a\nb\n" + b"k" * 2043, b"kk\nz\n"], cbs=[(0, "err")])
+        add("cb-ascii-dest", "ascii", [b"one\ntwo\n", b"three\n"], cbs=[(0, "dest")])
+        add("cb-binary-err-dest", "binary", [b"abc", b"def", b"ghi"], cbs=[(0, "err"), (2, "dest")])
+        add("cb-telnet-ttype-err", "telnet", [b"look" + crlf + tt + b"north" + crlf, b"south" + crlf], cbs=[(0, "err")])
+        add("cb-telnet-naws-err-split", "telnet", [b"lo", b"ok" + crlf + naws[:5], naws[5:] + b"n" + crlf + tt + b"s" + crlf], cbs=[(0, "err"), (1, "err")])
+        add("cb-telnet-dest", "telnet", [b"look" + crlf + tt + b"north" + crlf, b"south" + crlf], cbs=[(0, "dest")])
+        add("cb-telnet-subopt-dest-second", "telnet", [tt + bytes([IAC, SB, 70, 65, IAC, SE]) + b"x" + crlf], cbs=[(1, "dest")])
         # CR / LF / NUL combinations across reads
         add("cr-lf-split", "telnet", [b"hello\r", b"\nworld\r", b"\0x\r", b"\r\ny\r", b"z\r\n"])
         add("bare-lf-nul", "telnet", [b"a\nb\0c\0\0d" + crlf + crlf + b"\0" + crlf])
@@ -307,6 +323,15 @@ class C13(Prop):
             out.append(self.mk_case("%s-s%d" % (cid, i), port, [stream[:i], stream[i:]], rng, inter))
         return out
 
+    def g_cbs(self, rng, p_num=1, p_den=3):
+        """scripted callback failures for a generated case (mostly errors, rarely a destruct)"""
+        if not rng.chance(p_num, p_den):
+            return ()
+        out = [(rng.below(8), "err") for _ in range(rng.range(1, 3))]
+        if rng.chance(1, 6):
+            out.append((rng.below(6), "dest"))
+        return tuple(out)
+
     def generate(self, rng, n, tier):
         C = []
         i = 0
@@ -326,9 +351,10 @@ class C13(Prop):
                 s = self.g_telnet_stream(rng, rng.range(3, 40), "malformed" if kind == "tmal" else rng.choice(["text", "telnet"]))
                 if rng.chance(2, 3):
                     s += b"\r\n"
+                cbs = self.g_cbs(rng, 1, 4)
                 for how in ("one", "few", "many", "bytes"):
                     C.append(self.mk_case("%s-%s" % (cid, how), "telnet", self.segment(rng, s, how), rng,
-                                          rng.choice(["end", "each", "rand"])))
+                                          rng.choice(["end", "each", "rand"]), cbs=cbs))
             elif kind == "tlong":
                 body = b""
                 for _ in range(rng.range(1, 4)):
@@ -344,11 +370,12 @@ class C13(Prop):
                     s += b"k" * rng.choice([2040, 2046, 2047, 2048, 3000]) + b"\n" + self.g_plain_stream(rng, 4) + b"\n"
                 if len(s) <= 24:
                     C += self.two_splits(rng, cid, "ascii", s, "end")
+                cbs = self.g_cbs(rng, 1, 2)
                 for how in ("one", "few", "many") + (("bytes",) if len(s) < 400 else ()):
-                    C.append(self.mk_case("%s-%s" % (cid, how), "ascii", self.segment(rng, s, how)))
+                    C.append(self.mk_case("%s-%s" % (cid, how), "ascii", self.segment(rng, s, how), cbs=cbs))
             elif kind == "binary":
                 s = bytes(rng.below(256) for _ in range(rng.choice([1, 5, 100, 2047, 2048, 5000])))
-                C.append(self.mk_case(cid, "binary", self.segment(rng, s, rng.choice(["one", "few"]))))
+                C.append(self.mk_case(cid, "binary", self.segment(rng, s, rng.choice(["one", "few"])), cbs=self.g_cbs(rng, 1, 2)))
             elif kind == "console":
                 s = self.g_plain_stream(rng, rng.range(2, 25)).replace(b"\xff", b"\xfe")
                 if rng.chance(1, 5):
